@@ -126,7 +126,7 @@ func (s *c16Stream) OnBufferedAmountLow(f func()) {
 
 // drain acknowledges k buffered bytes; the callback fires exactly when the amount crosses the
 // threshold from above (pion's onBufferReleased).
-func (s *c16Stream) drain(k uint64) {
+func (s *c16Stream) drain(k uint64) bool {
 	s.mu.Lock()
 	from := s.buffered
 	if k > s.buffered {
@@ -139,6 +139,7 @@ func (s *c16Stream) drain(k uint64) {
 	if fire {
 		cb()
 	}
+	return fire
 }
 
 type c16DummyConn struct{ net.Conn }
@@ -637,8 +638,9 @@ func c16FlowCase(out *vlib.Out, ops []string) {
 				}
 			}
 		case 'd':
-			st.drain(uint64(k))
-			if pending != nil {
+			fired := st.drain(uint64(k))
+			if pending != nil && fired {
+				// the callback has put the token: the blocked writer must come back
 				select {
 				case r := <-pending:
 					if r.err == nil && r.n == pendingN {
@@ -648,7 +650,16 @@ func c16FlowCase(out *vlib.Out, ops []string) {
 						outs = append(outs, fmt.Sprintf("?%d:%v", r.n, r.err))
 					}
 					pending = nil
-				case <-time.After(25 * time.Millisecond):
+				case <-time.After(20 * time.Second):
+					out.OracleFail("C16:write-hangs", "a blocked Write was not released when the buffered amount fell below the threshold", line)
+					return
+				}
+			} else if pending != nil {
+				select {
+				case r := <-pending:
+					outs = append(outs, fmt.Sprintf("returned-early:%d:%v", r.n, r.err))
+					pending = nil
+				case <-time.After(5 * time.Millisecond):
 					outs = append(outs, "-")
 				}
 			} else {
